@@ -83,6 +83,7 @@ type ckksWorld struct {
 
 	poisonPt *rlwe.Plaintext
 	poisonV  []complex128
+	noPoison bool // obtained-scenario: the encoder under test is used exactly as it was obtained
 }
 
 var ckksWorlds = map[string]*ckksWorld{}
@@ -111,6 +112,9 @@ func getCkksWorld(cf ckksConf) *ckksWorld {
 // must be a function of its choice vector only (replays run in a fresh process), and an encoder that lets stale
 // buffer content leak into a result then fails deterministically instead of depending on the exploration order.
 func (w *ckksWorld) poison() {
+	if w.noPoison {
+		return
+	}
 	if w.poisonPt == nil {
 		w.poisonPt = ckks.NewPlaintext(w.p, w.L)
 		n := 1 << w.maxL
@@ -411,6 +415,7 @@ type ckksSpec struct {
 	ln       int
 	thr      int        // famThreshold in the slot domain: index into thresholds()
 	thrDir   complex128 // ... and the direction (1, -1, i, -i) of the constant vector
+	nilEvery int        // > 0: entries j with j % nilEvery == 1 of a []*big.Float / []*bignum.Complex input are nil (read as zero)
 }
 
 func (s ckksSpec) String() string {
@@ -482,7 +487,27 @@ func (w *ckksWorld) roundTrip(c *engine.Chooser, s ckksSpec) bool {
 	pt.IsNTT = s.ntt
 	dirty(pt.Value, w.p.Q())
 	w.poison()
-	err, pan := uni.Try(func() error { return w.ecd.Encode(typedInput(s.inTy, v), pt) })
+	in := typedInput(s.inTy, v)
+	if s.nilEvery > 0 {
+		// documented: nil entries of the big types are read as zero
+		for j := range v {
+			if j%s.nilEvery == 1 {
+				v[j] = 0
+				switch x := in.(type) {
+				case []*big.Float:
+					x[j] = nil
+				case []*bignum.Complex:
+					x[j] = nil
+				}
+			}
+		}
+		if _, big := in.([]*big.Float); !big {
+			if _, bigc := in.([]*bignum.Complex); !bigc {
+				in = typedInput(s.inTy, v)
+			}
+		}
+	}
+	err, pan := uni.Try(func() error { return w.ecd.Encode(in, pt) })
 	if pan != nil {
 		failD(c, mk("encode-panic"), "%v: Encode panicked: %v", s, pan)
 		return false
@@ -666,6 +691,82 @@ func ckksValueScenario(cf ckksConf) engine.Scenario {
 			c.Outcome(name, s.String())
 		}
 		c.Count(13)
+	}}
+}
+
+// obtainedScenario: the way the encoder was OBTAINED. A fresh encoder is built for every leaf and the one under test is
+//
+//	0 NewEncoder itself            1 ShallowCopy of the fresh encoder      2 ShallowCopy of a ShallowCopy
+//	3 ShallowCopy taken after the original has encoded and decoded (dirty buffers in the original)
+//	4 a ShallowCopy that has itself been used before (the usual poisoned state of the other scenarios)
+//
+// and is used exactly as obtained (no poisoning for 0-3: a copy's first operation must already be right). Crossed
+// with packing (full, two slots, one slot), level (top, 0), NTT flag, vector length (full, half), every input kind
+// including big types with nil entries, and every output type via roundTrip — whose budget is the one the
+// parameters' precision implies (Prec() of the encoder: a copy that silently works at 53 bits fails it).
+func ckksObtainedScenario(cf ckksConf) engine.Scenario {
+	name := "ckks/" + cf.name + "/obtained"
+	return engine.Scenario{Name: name, Bound: -1, Fn: func(c *engine.Chooser) {
+		w := getCkksWorld(cf)
+		how := c.Choose(5, "obtained")
+		s := ckksSpec{scale: pow2(cf.logScale), scaleTag: "default", fam: famMixed}
+		s.logSlots = []int{w.maxL, 1, 0}[c.Choose(3, "logSlots")]
+		s.level = []int{w.L, 0}[c.Choose(2, "level")]
+		s.ntt = c.Choose(2, "ntt") == 0
+		kind := c.Choose(6, "inType")
+		s.inTy = []int{tyC128, tyF64, tyBigF, tyBigC, tyBigF, tyBigC}[kind]
+		if kind >= 4 {
+			s.nilEvery = 3
+		}
+		n := 1 << s.logSlots
+		s.ln = []int{n, maxI(n/2, 1)}[c.Choose(2, "len")]
+		var fresh *ckks.Encoder
+		if cf.prec == 0 {
+			fresh = ckks.NewEncoder(w.p)
+		} else {
+			fresh = ckks.NewEncoder(w.p, cf.prec)
+		}
+		use := func(e *ckks.Encoder) {
+			pt := ckks.NewPlaintext(w.p, w.L)
+			v := make([]complex128, 1<<w.maxL)
+			for j := range v {
+				v[j] = complex(float64(j+1)*3.25, -float64(j+2)*1.5)
+			}
+			if err := e.Encode(v, pt); err != nil {
+				panic(err)
+			}
+			if err := e.Decode(pt, make([]complex128, len(v))); err != nil {
+				panic(err)
+			}
+		}
+		var e *ckks.Encoder
+		switch how {
+		case 0:
+			e = fresh
+		case 1:
+			e = fresh.ShallowCopy()
+		case 2:
+			e = fresh.ShallowCopy().ShallowCopy()
+		case 3:
+			use(fresh)
+			e = fresh.ShallowCopy()
+		default:
+			e = fresh.ShallowCopy()
+			use(e)
+		}
+		c.Cover("ckks-obtained", []string{"new", "copy", "copy-of-copy", "copy-of-used", "used-copy"}[how]+"/"+w.path())
+		if e.Prec() != w.prec {
+			failD(c, "C07/ckks/obtained/precision", "obtained=%d: Prec() = %d, the original has %d", how, e.Prec(), w.prec)
+			return
+		}
+		old, oldNP := w.ecd, w.noPoison
+		w.ecd, w.noPoison = e, true
+		defer func() { w.ecd, w.noPoison = old, oldNP }()
+		w.cover(c, s)
+		if w.roundTrip(c, s) {
+			c.Outcome(name, how, s.String(), kind)
+		}
+		c.Count(11)
 	}}
 }
 
@@ -1104,6 +1205,9 @@ func ckksScenarios(tier string) []engine.Scenario {
 		if (cf.logN == 4 && !cf.extra) || tier == "thorough" {
 			scs = append(scs, ckksThresholdScenario(cf))
 		}
+		if cf.logN <= 5 || tier == "thorough" {
+			scs = append(scs, ckksObtainedScenario(cf))
+		}
 		scs = append(scs, ckksValueScenario(cf), ckksCoeffScenario(cf), ckksProductScenario(cf), ckksFFTScenario(cf), ckksEmbedScenario(cf))
 	}
 	return scs
@@ -1112,7 +1216,7 @@ func ckksScenarios(tier string) []engine.Scenario {
 func expect(tier string) []string {
 	e := []string{
 		"bgv-domain=batched", "bgv-domain=coeff", "bgv-type=int64", "bgv-type=uint64", "bgv-level=0", "bgv-len=0", "bgv-len=1", "bgv-len=full",
-		"bgv-scale=1", "bgv-scale=t-1", "bgv-scale=(t+1)/2", "bgv-scale=q1 mod t", "bgv-gap=1", "bgv-gap=2", "bgv-gap=4", "bgv-gap=8", "bgv-every-scale=all-units", "bgv-scale-arithmetic=residues-above-2^32", "bgv-every-scale=spread", "ckks-coeff-public=judged-closeness-only", "ckks-threshold=coeff-domain", "ckks-threshold=2^31-1", "ckks-threshold=2^32+1", "ckks-threshold=2^53+1", "ckks-threshold=2^63-1", "ckks-threshold=2^63+1", "ckks-threshold=2^64-1", "ckks-threshold=2^64+1", "ckks-threshold=0.49*Q/scale",
+		"bgv-scale=1", "bgv-scale=t-1", "bgv-scale=(t+1)/2", "bgv-scale=q1 mod t", "bgv-gap=1", "bgv-gap=2", "bgv-gap=4", "bgv-gap=8", "bgv-every-scale=all-units", "bgv-scale-arithmetic=residues-above-2^32", "bgv-every-scale=spread", "ckks-coeff-public=judged-closeness-only", "ckks-obtained=new/arbitrary", "ckks-obtained=copy/arbitrary", "ckks-obtained=copy/float64", "ckks-obtained=copy-of-copy/arbitrary", "ckks-obtained=copy-of-used/arbitrary", "ckks-obtained=used-copy/arbitrary", "bgv-obtained=copy", "bgv-obtained=copy-of-copy", "bgv-obtained=copy-of-used", "ckks-threshold=coeff-domain", "ckks-threshold=2^31-1", "ckks-threshold=2^32+1", "ckks-threshold=2^53+1", "ckks-threshold=2^63-1", "ckks-threshold=2^63+1", "ckks-threshold=2^64-1", "ckks-threshold=2^64+1", "ckks-threshold=0.49*Q/scale",
 		"bgv-exhaust=single-slot", "bgv-exhaust=alphabet3", "bgv-product=ringT", "bgv-product=ringQ",
 		"ckks-logn=4", "ckks-logn=5", "ckks-logn=6", "ckks-ring=standard", "ckks-ring=conjugate-invariant", "ckks-path=float64", "ckks-path=arbitrary",
 		"ckks-slots=full", "ckks-slots=1", "ckks-slots=sparse", "ckks-level=0", "ckks-ntt=true", "ckks-ntt=false", "ckks-domain=coeff",
